@@ -17,7 +17,8 @@ FUNCTIONS = [
     "jsonargparse._core.ArgumentParser.parse_args/set_defaults/instantiate_classes",
 ]
 
-LAYOUTS = ["single:f1", "single:f2", "single:f3", "single:K1", "list:f1,f3", "dict:grp(f1,f3),f2", "single:f4", "list:f4,f3", "single:f5", "list:f5,f1", "list:f1,K1"]
+LAYOUTS = ["single:f1", "single:f2", "single:f3", "single:K1", "list:f1,f3", "dict:grp(f1,f3),f2", "single:f4", "list:f4,f3", "single:f5", "list:f5,f1", "single:f6", "list:f6,f3",
+           "list:f1,K1"]
 
 
 def _components(layout):
@@ -56,12 +57,13 @@ def cli(layout, via_config=False):
         argv_pos = {c: [] for c in callees}
         cfg_obj = {c: {} for c in callees}
         for c in callees:
-            for pname, default, text, conv in F.PARAMS[c]:
+            for prm in F.PARAMS[c]:
+                pname, default, text, conv = prm[:4]
                 is_given = S.flag(f"{c}.{pname}.given")
                 if is_given:
                     expected[(c, pname)] = conv
                     if via_config:
-                        cfg_obj[c][pname] = conv
+                        cfg_obj[c][pname] = prm[4] if len(prm) > 4 else conv
                     elif default is F.REQUIRED:
                         argv_pos[c].append(text)
                     else:
@@ -96,7 +98,7 @@ def cli(layout, via_config=False):
             pos_ok = True
             req = [p for p in F.PARAMS[first] if p[1] is F.REQUIRED]
             seen_missing = False
-            for pname, default, text, conv in req:
+            for pname, default, text, conv in (r_[:4] for r_ in req):
                 if (first, pname) in expected:
                     if seen_missing:
                         return None  # a later positional without the earlier one cannot be written on a command line
@@ -159,7 +161,7 @@ def main(rep, tier):
         "the components=None module-scan form, async callees, methods with a 'config' parameter are outside",
     ]
     jobs = []
-    for layout in (LAYOUTS if tier == "thorough" else LAYOUTS[:10]):
+    for layout in (LAYOUTS if tier == "thorough" else LAYOUTS[:12]):
         jobs.append(dict(module="c12", func="cli", kwargs=dict(layout=layout), timeout=600))
         if layout.startswith("single"):
             jobs.append(dict(module="c12", func="cli", kwargs=dict(layout=layout, via_config=True), timeout=600))
